@@ -63,5 +63,29 @@ def run(ctx):
         if res.get(cid) != oracle(s):
             corr.oracle_failures.append((cid, 'ids %s: masks %s, the property demands %s' % (s, res.get(cid), oracle(s)),
                                          {'mode': 'rollbacks', 'ids': s, 'got': res.get(cid), 'expected': oracle(s)}))
+    # the masks of games as the reader returns them (all columns present, rollbacks in the id sequence), including games whose raw
+    # element stops inside the last frame (after its Frame Start or after some of its Pre events): still one boolean per id row
+    from .. import synth
+    gc = []
+    for i in range(120 if thorough else 30):
+        r = synth.gen_wf(rng, rng.choice([(1, 0), (2, 2), (3, 0), (3, 7), (3, 16)]), nframes=rng.choice([1, 2, 4, 7]), end=rng.choice(['single', None]), gecko=0)
+        gc.append(('g%d' % i, [synth.emit(r).hex()]))
+        if r.frames and r.ver >= (3, 0, 0):
+            evs = synth.events_of(r)
+            last_fs = max(k for k, e in enumerate(evs) if e[0] == 'fstart')
+            for cut in (last_fs + 1, last_fs + 2):
+                gc.append(('g%d_c%d' % (i, cut), [synth.assemble(r, evs[:cut]).hex()]))
+    gres = core.run_parallel(R.run_pvh, 'rbgame', gc, n=8)
+    for cid, f in gc:
+        corr.seen('rbgame' + f[0][:80] + str(len(f[0]))); corr.count('parsed_games' + ('_cut_inside_last_frame' if '_c' in cid else ''))
+        out = gres.get(cid) or ['?']
+        if out[0] != 'OK':
+            if '_c' in cid: continue        # the reader may refuse a stream that stops inside a frame
+            corr.oracle_failures.append((cid, 'well-formed replay rejected: %s' % out[:2], {'mode': 'rbgame', 'fields': f})); continue
+        d = {l.split('=', 1)[0]: l.split('=', 1)[1] for l in out if '=' in l}
+        ids = [int(x) for x in d.get('ids', '').split(',') if x]
+        if [d.get('first'), d.get('last')] != [x.split('=', 1)[1] for x in oracle(ids)]:
+            corr.oracle_failures.append((cid, 'parsed game with ids %s: masks first=%s last=%s, the property demands %s' % (ids[:20], d.get('first'), d.get('last'), oracle(ids)),
+                                         {'mode': 'rbgame', 'fields': f, 'replay_hex': f[0], 'ids': ids, 'rerun': 'pvh rbgame <file: x <replay_hex>>'}))
     corr.sample({'ids': seqs[700]}); corr.sample({'ids': seqs[-1]}); corr.sample({'ids': big[1]})
     return corr
